@@ -96,6 +96,11 @@ var (
 	numZeroBuf = []byte{'0'}
 )
 
+// isNumberContinuation reports whether c continues a JSON number after an integer token.
+func isNumberContinuation(c byte) bool {
+	return c == '.' || c == 'e' || c == 'E' || ('0' <= c && c <= '9')
+}
+
 func (d *intDecoder) decodeStreamByte(s *Stream) ([]byte, error) {
 	for {
 		switch s.char() {
@@ -124,9 +129,20 @@ func (d *intDecoder) decodeStreamByte(s *Stream) ([]byte, error) {
 				// leading zero: "-0" must not be followed by another digit
 				return nil, d.typeError(num, s.totalOffset())
 			}
+			if isNumberContinuation(s.char()) {
+				// 3.25 or 1e2: a number, but not an integer
+				return nil, d.typeError(num, s.totalOffset())
+			}
 			return num, nil
 		case '0':
 			s.cursor++
+			if s.char() == nul {
+				s.read()
+			}
+			if isNumberContinuation(s.char()) {
+				// 01, 0.5 or 0e1: not an integer literal
+				return nil, d.typeError([]byte{'0', s.char()}, s.totalOffset())
+			}
 			return numZeroBuf, nil
 		case '1', '2', '3', '4', '5', '6', '7', '8', '9':
 			start := s.cursor
@@ -143,6 +159,10 @@ func (d *intDecoder) decodeStreamByte(s *Stream) ([]byte, error) {
 				break
 			}
 			num := s.buf[start:s.cursor]
+			if isNumberContinuation(s.char()) {
+				// 3.25 or 1e2: a number, but not an integer
+				return nil, d.typeError(num, s.totalOffset())
+			}
 			return num, nil
 		case 'n':
 			if err := nullBytes(s); err != nil {
